@@ -42,6 +42,11 @@ def check(repo, rep):
             if skipped and not loops:
                 continue     # the zero-iteration variant of the same path
             modes['callback'] += 1
+            if not loops and any(e[0] == 'call' and e[1][0] == 'call' and e[1][1] == ('b', 'next') and e[1][2][:1] == (g,) for e in l.effects):
+                # the generator is stepped by hand (token = next(gen, sentinel) ... in a while loop): which tokens reach the callback
+                # is not followed
+                rep.unknown('StreamTokenizer.tokenize: callback mode steps the token generator with next(); the hand-over of each token to the callback is not followed')
+                continue
             calls = [e for e in l.effects if e[0] == 'call' and e[1][0] == 'call' and e[1][1] == ('p', 'callback')]
             el = ('elem', g)
             ok = bool(loops) and len(calls) == 1 and not calls[0][1][3] and calls[0][1][2] in ((('star', el),), tuple(('sub', el, ('c', i)) for i in range(3)))
@@ -55,7 +60,9 @@ def check(repo, rep):
                    sample=dict(mode='generator', returns=show(l.value)[:80]))
         elif l.outcome == 'return':
             modes['list'] += 1
-            rep.ob('list mode returns list(token generator)', P.call('list', P.same(g))(l.value), where, 'StreamTokenizer.tokenize:list-mode', 'returns %s' % show(l.value)[:100],
+            lv_ = l.value
+            star_list = lv_ is not None and lv_[0] in ('list', 'tuple') and len(lv_[1]) == 1 and lv_[1][0] == ('star', g)       # [*gen] is list(gen)
+            rep.ob('list mode returns list(token generator)', P.call('list', P.same(g))(l.value) or (star_list and lv_[0] == 'list'), where, 'StreamTokenizer.tokenize:list-mode', 'returns %s' % show(l.value)[:100],
                    sample=dict(mode='list', returns=show(l.value)[:80]))
     for k, n in modes.items():
         rep.ob('tokenize() has a %s mode' % k, n >= 1, W(tk), 'StreamTokenizer.tokenize:missing-%s-mode' % k)
